@@ -110,7 +110,9 @@ const (
 	KeyPAASign  = "PAAsignKEY-0123456789abcdef-XYZ0"
 	KeyPAAEnc   = "PAAencrKEY-0123456789abcdef-XYZ1"
 	KeyUserEnc  = "USRencrKEY-0123456789abcdef-XYZ2"
-	KeyUserSign = "USRsignKEY-0123456789abcdef-XYZ3"
+	// (64 characters: long enough for every HMAC variant, so that a token signed HS384 / HS512 under the configured key
+	// is a token a verifier could check - and has to refuse because of its algorithm, not because of the key's size)
+	KeyUserSign = "USRsignKEY-0123456789abcdef-XYZ3-USRsignKEY-0123456789abcdef-XYZ3"
 	KeyQuery    = "QRYsignKEY-0123456789abcdef-XYZ4"
 	KeySess     = "SESSIONKEY-0123456789abcdef-XYZ5"
 	KeySessEnc  = "SESSencKEY-0123456789abcdef-XYZ6"
